@@ -45,6 +45,8 @@ def make_scripted(rec, script):
                     setattr(self, name, [])
                     return
                 k = sum(int(q) + int(p) for q, p in rs)
+                if self.position.qty < 0 and k % 2 == 1:      # on a short: rows written with the signed quantity (position.qty)
+                    rs = [(-abs(q), p) for q, p in rs]
                 if isinstance(cur, np.ndarray) and cur.shape == (len(rs), 2) and k % 2 == 0:
                     cur[:, :] = np.array(rows(rs), dtype=float)
                 elif k % 3 == 0:
